@@ -121,7 +121,17 @@ impl<R> Archive<R> {
             header[header::ARCHIVE_MAGIC.len()..header::PRE_HEADER_SIZE]
                 .try_into()
                 .unwrap(),
-        ) as usize;
+        );
+        // The size is not covered by any checksum yet, make sure the header
+        // offsets derived from it can be represented.
+        let dictionary_size = usize::try_from(dictionary_size)
+            .ok()
+            .filter(|size| {
+                size.checked_add(header::PRE_HEADER_SIZE + 8 + 64)
+                    .and_then(|header_size| u64::try_from(header_size).ok())
+                    .is_some()
+            })
+            .ok_or_else(|| ArchiveError::invalid_archive("invalid dictionary size"))?;
 
         // Read the dictionary, chunk data offset and header hash
         header.extend_from_slice(
